@@ -206,6 +206,12 @@ pub trait Property: Sync + Send {
     /// extra work after the strata (e.g. rustc tier, fresh processes). Returns failures.
     /// called once before anything else with the run's seed
     fn init(&self, _tier: Tier, _seed: u64) {}
+    /// Properties whose statement includes termination: a single case that runs longer than this
+    /// many seconds makes the process stop with exit code 86; the driver then re-runs that case
+    /// alone, twice, with a larger budget, and reports non-termination only if both re-runs hang.
+    fn case_deadline_s(&self) -> Option<u64> {
+        None
+    }
     fn extra(&self, _tier: Tier, _seed: u64, _stats: &mut Stats) -> Result<(), Failure> {
         Ok(())
     }
@@ -300,7 +306,11 @@ fn eval_wrapped(
     stats: &mut Stats,
     known: &BTreeSet<String>,
 ) -> Result<(), Failure> {
+    let w = WORKER.with(|w| w.get());
+    write_inflight(prop.id(), stratum, w, &input);
+    CASE_CLOCK[w % CASE_CLOCK.len()].store(now_ms().max(1), std::sync::atomic::Ordering::Relaxed);
     let r = catch_unwind(AssertUnwindSafe(|| prop.eval(stratum, input, stats)));
+    CASE_CLOCK[w % CASE_CLOCK.len()].store(0, std::sync::atomic::Ordering::Relaxed);
     let r = match r {
         Ok(r) => r,
         Err(_) => {
@@ -325,8 +335,42 @@ fn eval_wrapped(
     }
 }
 
+// per worker: start time (ms since process start) of the case being evaluated, 0 = idle
+static CASE_CLOCK: [std::sync::atomic::AtomicU64; 64] = [const { std::sync::atomic::AtomicU64::new(0) }; 64];
+static PROCESS_START: std::sync::OnceLock<Instant> = std::sync::OnceLock::new();
+fn now_ms() -> u64 {
+    PROCESS_START.get_or_init(Instant::now).elapsed().as_millis() as u64
+}
+thread_local! {
+    static WORKER: std::cell::Cell<usize> = const { std::cell::Cell::new(63) };
+}
+
+/// watches the workers of a property that claims termination (see `Property::case_deadline_s`)
+fn spawn_deadline_monitor(prop_id: &'static str, deadline_s: u64) {
+    let _ = now_ms();
+    std::thread::spawn(move || loop {
+        std::thread::sleep(std::time::Duration::from_millis(500));
+        let now = now_ms();
+        for (w, c) in CASE_CLOCK.iter().enumerate() {
+            let started = c.load(std::sync::atomic::Ordering::Relaxed);
+            if started != 0 && now.saturating_sub(started) > deadline_s * 1000 {
+                let src = verif_dir().join("work").join(format!("inflight-{prop_id}-{w}.json"));
+                let dst = verif_dir().join("work").join(format!("hang-{prop_id}.json"));
+                let _ = std::fs::copy(&src, &dst);
+                println!(
+                    "HANG property={prop_id} worker={w}: one case has been running for more than {deadline_s}s; recorded in {}",
+                    dst.display()
+                );
+                use std::io::Write;
+                let _ = std::io::stdout().flush();
+                std::process::exit(86);
+            }
+        }
+    });
+}
+
 // Record the case a worker is about to evaluate, so that the driver can re-run it in a fresh
-// process if this one dies on a signal (stack overflow / abort).
+// process if this one dies on a signal (stack overflow / abort) or hangs.
 thread_local! {
     static INFLIGHT_FILE: std::cell::RefCell<Option<(String, std::fs::File)>> = const { std::cell::RefCell::new(None) };
 }
@@ -494,6 +538,7 @@ fn run_stratum(
             std::thread::Builder::new()
                 .stack_size(512 << 20)
                 .spawn_scoped(scope, move || {
+                    WORKER.with(|c| c.set(w));
                     let mut stats = Stats::default();
                     let mut failure = None;
                     match st.kind {
@@ -531,7 +576,6 @@ fn run_stratum(
                                         Err(_) => break,
                                     };
                                     let tape = tree.current();
-                                    write_inflight(prop.id(), &st.name, w, &Input::Tape(&tape));
                                     stats.evaluations += 1;
                                     if let Err(f) = eval_wrapped(
                                         prop,
@@ -596,7 +640,6 @@ fn run_stratum(
                                 let end = (start + block).min(total);
                                 for i in start..end {
                                     if total <= 200_000 {
-                                        write_inflight(prop.id(), &st.name, w, &Input::Index(i));
                                     }
                                     stats.evaluations += 1;
                                     if let Err(f) = eval_wrapped(
@@ -651,6 +694,10 @@ pub fn run_property(prop: &dyn Property, tier: Tier, seed: u64) -> i32 {
 
     prop.init(tier, seed);
     clear_inflight(prop.id());
+    let _ = std::fs::remove_file(verif_dir().join("work").join(format!("hang-{}.json", prop.id())));
+    if let Some(d) = prop.case_deadline_s() {
+        spawn_deadline_monitor(prop.id(), d);
+    }
     if let Err(e) = prop.self_check() {
         eprintln!("generator self-check failed: {e}");
         return 2;
